@@ -437,7 +437,7 @@ def case_topo(c, out):
         st_["was_connected"].add(d)
         connected.add(d)
         sync_dead()
-        net.connect(d)
+        net.connect(d, revive=d not in silent)
         sync_dead()
         w.settle()
 
